@@ -19,6 +19,7 @@ type ShareScenario struct {
 	Cfg     pipe.ShCfg
 	Scripts [][]string // per thread: "sub" "unsub" "connect" "disconnect" "next" "complete" "error"
 	Pre     int        // park mode: thread 1 performs its first Pre operations BEFORE thread 0 (the victim) starts
+	Post    int        // park mode: thread 1 performs its last Post operations only AFTER thread 0 has been released and has finished
 }
 
 // ShareForcedShapes: how many of the next generated scenarios are forced counterexample shapes (set to 4 by drive-share -park)
@@ -55,6 +56,7 @@ func GenShare(r *rand.Rand) ShareScenario {
 		}
 		sc.Scripts = [][]string{{term}, {"sub", "unsub", "sub", "unsub"}}
 		sc.Pre = 1                         // the subscriber is there before the source terminates
+		sc.Post = 1                        // ... and the second subscriber leaves after the termination call has returned
 		if forced >= 0 || r.Intn(2) == 0 { // ... with a termination that is KEPT (no reset), the case in which the flags matter
 			if term == "complete" {
 				sc.Cfg.Rc = false
@@ -163,6 +165,7 @@ func RunShare(lg *rec.Log, sc ShareScenario, seed int64, pk *rec.Parker) []rec.E
 	startOthers := start
 	victimDone := make(chan struct{})
 	preDone := make(chan struct{})
+	postWait := make(chan struct{}, 4)
 	if pk != nil {
 		startOthers = make(chan struct{})
 	}
@@ -198,6 +201,10 @@ func RunShare(lg *rec.Log, sc ShareScenario, seed int64, pk *rec.Parker) []rec.E
 				if pk != nil && p == 1 && sc.Pre > 0 && j == sc.Pre {
 					close(preDone)
 					<-st
+				}
+				if pk != nil && p == 1 && sc.Post > 0 && j == len(sc.Scripts[p])-sc.Post {
+					postWait <- struct{}{} // tell the coordinator that only the trailing operations are left
+					<-victimDone
 				}
 				if pk == nil {
 					jitter(r)
@@ -266,6 +273,7 @@ func RunShare(lg *rec.Log, sc ShareScenario, seed int64, pk *rec.Parker) []rec.E
 		go func() { wgOthers.Wait(); close(othersDone) }()
 		select {
 		case <-othersDone:
+		case <-postWait: // the other thread did everything but its trailing operations: they follow the victim's return
 		case <-timeAfterMs(30):
 		}
 		pk.Release()
